@@ -4,6 +4,11 @@ R_AXIOMS = ("theorems over R use the standard-library real-number axioms Classic
             "sig_not_dec and FunctionalExtensionality.functional_extensionality_dep (named by Print Assumptions in the evidence)")
 
 CHECKS = {
+ "C07": {
+  "technique": "Coq proof over R (separability under the mask, mask = boundary pairs) + correspondence + known-finding filter",
+  "text": "Proved for all inputs: no stacked window mixes two series (C07_no_mixed_window); the mask helper's zeros are exactly the boundary pairs in the kernel's indexing (C07_mask_exact, any tuple of lengths >= 1); under the masked switching costs the joint cost splits and the joint optimum is the sum of the per-series optima (C07_masked_cost_splits, C07_masked_is_separable, any number of series, K <= 65536, beta >= 0); one series => identical computation (C07_single_series_joint). C07_joint_refuted is a computed witness that the scalar beta prices boundary pairs. Tie: mask helper against the model on every tuple of up to 5 (6) lengths; traced joint runs observe which switching-cost object reaches the labelling step (hook H3) and compare cost/labels with exact-rational DPs with free and with priced boundaries; joint-of-one vs single front end bit for bit.",
+  "note": R_AXIOMS + ". OPEN KNOWN FINDING (known_findings.json, joint-unmasked-beta): on the current tree the front end passes the unmasked scalar, so boundary pairs are priced; runs explained exactly by that mechanism print KNOWN-FINDING, any other deviation is a violation; the upstream repair makes the check pass without the finding (rehearsed).",
+ },
  "C04": {
   "technique": "Coq proof (list lemmas on pad/split, any W, T, #series) + correspondence incl. traced end-to-end runs",
   "text": "C04_single / C04_joint: for every W >= 1, every series length T >= W (any number of series of unequal length) the returned lists have exactly T entries, the first floor((W-1)/2) and last (W-1)-floor((W-1)/2) are -1 and the rest are the main loop's labels in [0,K), in input order; C04_mrf_shape: re-inflating NW(NW+1)/2 numbers gives exactly NW x NW. Tied to the code on every W <= 12 x lengths <= 40 x up to 6 series and on an end-to-end grid of traced runs of both front ends where the result labels must equal the model front end applied to the final model state's labels (hook H1) and the statement is checked on the result objects.",
